@@ -571,15 +571,17 @@ const (
 
 // Rec accumulates what a shard covered.
 type Rec struct {
-	mu        sync.Mutex
-	evals     int64
-	distinct  map[uint64]struct{}
-	saturated bool
-	classes   map[string]int64
-	excluded  map[string]int64
-	samples   []any
-	sampleKey []uint64
-	notes     map[string]any
+	mu         sync.Mutex
+	evals      int64
+	distinct   map[uint64]struct{}
+	saturated  bool
+	classes    map[string]int64
+	excluded   map[string]int64
+	samples    []any
+	sampleKey  []uint64
+	bigSamples []any
+	bigKeys    []uint64
+	notes      map[string]any
 }
 
 // R is the process-wide recorder.
@@ -603,21 +605,32 @@ func (r *Rec) NonTrivial(c *Case) {
 	} else {
 		r.saturated = true
 	}
-	// deterministic sample selection: keep the maxSamples smallest hashes
-	if len(r.samples) < maxSamples {
-		r.samples = append(r.samples, c.Sample())
-		r.sampleKey = append(r.sampleKey, h)
+	// deterministic sample selection: the smallest hashes among short cases and,
+	// separately, among larger ones (so that samples are not all tiny)
+	key := h
+	if len(c.Key()) >= 64 {
+		r.offerSample(&r.bigSamples, &r.bigKeys, key, c)
+		return
+	}
+	r.offerSample(&r.samples, &r.sampleKey, key, c)
+}
+
+func (r *Rec) offerSample(samples *[]any, keys *[]uint64, h uint64, c *Case) {
+	const half = maxSamples / 2
+	if len(*samples) < half {
+		*samples = append(*samples, c.Sample())
+		*keys = append(*keys, h)
 		return
 	}
 	worst := 0
-	for i, k := range r.sampleKey {
-		if k > r.sampleKey[worst] {
+	for i, k := range *keys {
+		if k > (*keys)[worst] {
 			worst = i
 		}
 	}
-	if h < r.sampleKey[worst] {
-		r.samples[worst] = c.Sample()
-		r.sampleKey[worst] = h
+	if h < (*keys)[worst] {
+		(*samples)[worst] = c.Sample()
+		(*keys)[worst] = h
 	}
 }
 
@@ -698,7 +711,7 @@ func Flush() {
 	R.mu.Lock()
 	defer R.mu.Unlock()
 	p := Partial{Property: property, Shard: shard, Evals: atomic.LoadInt64(&R.evals), Saturated: R.saturated,
-		Classes: R.classes, Excluded: R.excluded, Samples: R.samples, Notes: R.notes}
+		Classes: R.classes, Excluded: R.excluded, Samples: append(append([]any{}, R.bigSamples...), R.samples...), Notes: R.notes}
 	p.Distinct = make([]uint64, 0, len(R.distinct))
 	for h := range R.distinct {
 		p.Distinct = append(p.Distinct, h)
